@@ -406,8 +406,14 @@ AncestorClosed ==
               changes[c].prev \subseteq attached[r] /\ changes[c].snap \in attached[r]
 
 \* C01 (b'): nothing is advertised that the sender does not hold when it sends it
-AdvertisedHeld(m) == (m.heads \cup m.changes \cup Range(m.path)) \subseteq stored'[m.from]
-AdvertiseOnlyHeld == [][\A m \in Emitted(net, net') : AdvertisedHeld(m)]_vars
+\* ... and the snapshot path it advertises is the path of its current in-memory root (the receiver
+\* picks the common snapshot from it; a stale path makes it rebuild at the wrong snapshot)
+AdvertisedHeld(m) ==
+    /\ (m.heads \cup m.changes \cup Range(m.path)) \subseteq stored'[m.from]
+    /\ (m.path = <<>> \/ m.path = SPathIn(changes', Root, root'[m.from]))
+\* (the messages a step puts on the wire are last'.emit; Dup re-injects an old message, which is
+\* not an emission of its sender)
+AdvertiseOnlyHeld == [][\A m \in last'.emit : AdvertisedHeld(m)]_vars
 
 \* C01 (a): once the network has drained and no pair differs in heads, all replicas hold the
 \* same heads and the same changes
